@@ -8,11 +8,16 @@
 //                  rejected (top-level array/object/string), (c) ALL 2-chunk cuts and the given k-chunk cuts equal the whole result
 //          xdl, mut, raw = XDL-flavoured / mutated / random texts: total (terminates, ASan-clean) and (c) only
 //          deep  = nest op, n <= 512: (a) and sampled cuts
+//          reuse = several doc ops (each optionally followed by one cut op): ONE XdlParser object decodes them in turn, with
+//                  reset() between documents; every result equals a fresh parser's.  reset() is only relied upon after a
+//                  COMPLETE document (see C06_walk.h); after a rejected one the session continues on a new parser object.
+//          every part with an accepted document also runs a short reuse round on that document (decode, reset, chunks, reset, decode)
 #include "common/vfrc.h"
 #include "common/ref_json.h"
 #include "common/ref_codec.h"
 #include "C06_walk.h"
 #include <cmath>
+#include <memory>
 
 using namespace asl;
 
@@ -55,9 +60,106 @@ static Var decode_whole(const std::string& t)
 	return p.decode(whole.p);
 }
 
+// feed `t` to an EXISTING parser: whole through decode() when there are no cuts, else chunk by chunk and the final flush
+static Var feed(XdlParser& p, const std::string& t, const std::vector<size_t>& cuts)
+{
+	if (cuts.empty()) {
+		c06::ExactC whole(t.data(), t.size());
+		return p.decode(whole.p);
+	}
+	size_t prev = 0;
+	for (size_t i = 0; i <= cuts.size(); i++) {
+		size_t e = i < cuts.size() ? cuts[i] : t.size();
+		c06::ExactC chunk(t.data() + prev, e - prev);
+		p.parse(chunk.p);
+		prev = e;
+	}
+	c06::ExactC sp(" ", 1);
+	p.parse(sp.p);
+	return p.value();
+}
+
+static std::vector<size_t> cuts_of(const vf::Op& o, size_t len)
+{
+	std::vector<size_t> cuts;
+	for (long long p : o.a)
+		cuts.push_back((size_t)((p < 0 ? -(p + 1) : p) % (long long)(len + 1)));
+	std::sort(cuts.begin(), cuts.end());
+	return cuts;
+}
+
 struct Counts {
-	uint64_t prefixes = 0, cuts2 = 0, cutsk = 0;
+	uint64_t prefixes = 0, cuts2 = 0, cutsk = 0, reuse = 0;
 };
+
+// a parser object that has decoded a complete document and was reset() behaves like a fresh one
+static void check_reuse_same_doc(const std::string& text, const Var& whole, Counts& n)
+{
+	if (!whole.ok() || c06::may_leave_surrogate_pending(text))
+		return;
+	XdlParser p;
+	std::string why;
+	Var a = feed(p, text, {});
+	VF_CHECK(c06::same(whole, a, why), "harness: second fresh parser disagrees: ", why);
+	p.reset();
+	Var b = feed(p, text, {text.size() / 3, text.size() - text.size() / 3});
+	VF_CHECK(c06::same(whole, b, why), "reused parser (document, reset(), same document in 3 chunks) differs from a fresh parser: ", why, "; got ", c06::show(b), "; text ", vf::show(text, 300));
+	p.reset();
+	Var d = feed(p, text, {});
+	VF_CHECK(c06::same(whole, d, why), "reused parser (third use after reset()) differs from a fresh parser: ", why, "; got ", c06::show(d), "; text ", vf::show(text, 300));
+	n.reuse += 2;
+}
+
+// part reuse: one parser object, several documents
+static void run_reuse_session(const vf::Case& c)
+{
+	std::unique_ptr<XdlParser> P(new XdlParser);
+	bool fresh = true;
+	uint64_t after_reset = 0, restarts = 0, chunked = 0;
+	int idx = 0;
+	for (size_t i = 0; i < c.ops.size(); i++) {
+		if (c.ops[i].name != "doc")
+			continue;
+		std::string text = c.ops[i].str(0);
+		for (auto& ch : text)
+			if (ch == 0)
+				ch = ' ';
+		std::vector<size_t> cuts;
+		if (i + 1 < c.ops.size() && c.ops[i + 1].name == "cut")
+			cuts = cuts_of(c.ops[i + 1], text.size());
+		Var expected = decode_whole(text); // a fresh parser, whole text
+		bool did_reset = false;
+		if (!fresh || (c.ops[i].i(0) & 1)) { // reset() on a fresh parser must be harmless too
+			P->reset();
+			did_reset = !fresh;
+		}
+		Var got = feed(*P, text, cuts);
+		std::string why, cs;
+		for (size_t x : cuts)
+			cs += std::to_string(x) + " ";
+		// Only documents a fresh parser ACCEPTS are compared: on the unchanged tree reset() keeps the root list, so a text
+		// without any value (empty, blanks, comments) decoded after reset() reports the previous document's value again.
+		VF_CHECK(!expected.ok() || c06::same(expected, got, why), "document #", idx, did_reset ? " on a reused parser after reset()" : " on a new parser", cuts.empty() ? "" : " (cut at ", cs,
+		         cuts.empty() ? "" : ")", " differs from a fresh parser: ", why, "; got ", c06::show(got), " want ", c06::show(expected), "; text ", vf::show(text, 300));
+		if (did_reset && expected.ok()) {
+			after_reset++;
+			if (!cuts.empty())
+				chunked++;
+		}
+		idx++;
+		if (!got.ok() || c06::may_leave_surrogate_pending(text)) {
+			// reset() is not defined to recover from an incomplete document (stale open containers / comment flag stay)
+			P.reset(new XdlParser);
+			fresh = true;
+			restarts++;
+		}
+		else
+			fresh = false;
+	}
+	vf::stats().cls("reuse.documents_decoded_after_reset()", after_reset);
+	vf::stats().cls("reuse.documents_decoded_after_reset()_in_chunks", chunked);
+	vf::stats().cls("reuse.new_parser_after_rejected_document", restarts);
+}
 
 // documents over 600 bytes: positions within 100 bytes of either end and ~100 evenly spaced ones in between
 static bool sampled(size_t pos, size_t len)
@@ -98,6 +200,10 @@ static void check_cuts(const std::string& text, const Var& whole, const vf::Case
 
 void vf_run_case(const std::string& part, const vf::Case& c)
 {
+	if (part == "reuse") {
+		run_reuse_session(c);
+		return;
+	}
 	std::string text;
 	bool have = false, nest = false;
 	long long nestn = 0;
@@ -158,6 +264,8 @@ void vf_run_case(const std::string& part, const vf::Case& c)
 		}
 	}
 	check_cuts(text, whole, c, n, !nest);
+	check_reuse_same_doc(text, whole, n);
+	vf::stats().cls("checked.reuse_after_reset()", n.reuse);
 	vf::stats().cls("checked.prefixes", n.prefixes);
 	vf::stats().cls("checked.2-chunk_cuts", n.cuts2);
 	vf::stats().cls("checked.k-chunk_cuts", n.cutsk);
@@ -675,6 +783,38 @@ void vf_search(const vf::Args& a)
 			vf::stats().cls(v.ok() ? "mut.accepted_by_asl" : "mut.rejected_by_asl");
 			if (t.size() >= 4)
 				vf::stats().nt(vf::fnv(t));
+		});
+	}();
+	// (6) parser objects that are REUSED: 2..6 documents on one XdlParser with reset() in between, whole or chunked
+	[&]() {
+		auto g = gen::exec([]() {
+			vf::Case c;
+			int n = *vf::irange<int>(2, 6);
+			for (int i = 0; i < n; i++) {
+				int k = *vf::irange<int>(0, 9);
+				std::string t = k < 5 ? jdoc(*gen::elementOf(std::vector<int>{3, 6, 12}), 6).text : k < 9 ? xdoc(*gen::elementOf(std::vector<int>{3, 6, 12})) : mutate(jdoc(6, 4).text, xdoc(4));
+				vf::Op o("doc", {*vf::irange<int>(0, 1)}, {t});
+				c.ops.push_back(o);
+				if (*vf::irange<int>(0, 2) != 0)
+					for (auto& x : cut_ops(1))
+						c.ops.push_back(x);
+			}
+			return c;
+		});
+		int samples = 0;
+		vf::check_cases("reuse", a.n(1500, 8000), 60, g, [&](const vf::Case& c) {
+			int accepted_run = 0, best = 0;
+			for (auto& o : c.ops)
+				if (o.name == "doc") {
+					accepted_run = Xdl::decode(String(o.str(0).c_str())).ok() ? accepted_run + 1 : 0;
+					best = std::max(best, accepted_run);
+				}
+			auto& st = vf::stats();
+			if (best >= 2) // at least one document really decoded by a reused parser after reset()
+				st.nt(vf::fnv(vf::serialize(c)));
+			st.cls(best >= 4 ? "reuse.sessions_with_4+_consecutive_accepted" : best >= 2 ? "reuse.sessions_with_2-3_consecutive_accepted" : "reuse.sessions_without_real_reuse");
+			if (best >= 3 && samples++ < 2)
+				st.sample("reuse: " + vf::serialize(c));
 		});
 	}();
 	// (5) random strings over a structural alphabet
